@@ -91,6 +91,7 @@ type runner struct {
 	failedEpoch []int
 	cs          *concState
 	mutBy       map[int]int
+	recovering  bool
 }
 
 func (r *runner) probe(name string) {
